@@ -288,6 +288,19 @@ pub open spec fn pnext_ok(num: PlayerNum, p_player: [f64; 2], prob: f64, p_next:
     }
 }
 
+// a selection of action positions, strictly increasing (no action twice, order kept)
+pub open spec fn sel_ok(idx: Seq<int>, n: int) -> bool {
+    (forall|j: int| 0 <= j < idx.len() ==> 0 <= #[trigger] idx[j] < n)
+    && (forall|i: int, j: int| 0 <= i < j < idx.len() ==> idx[i] < idx[j])
+}
+// the entries added to the frontier are those of the selected actions: the child, the unchanged chance
+// reach, and the reach vector of ITS path
+pub open spec fn added_ok<'a>(w0: Seq<(&'a Node, f64, [f64; 2])>, w1: Seq<(&'a Node, f64, [f64; 2])>, idx: Seq<int>, player: &'a Player, st: Seq<f64>, p_chance: f64, p_player: [f64; 2]) -> bool {
+    w1.len() == w0.len() + idx.len() && w1.take(w0.len() as int) == w0
+    && forall|j: int| 0 <= j < idx.len() ==> (#[trigger] w1[w0.len() + j]).0 == &player.actions@[idx[j]]
+        && w1[w0.len() + j].1 == p_chance && pnext_ok(player.num, p_player, st[idx[j]], w1[w0.len() + j].2)
+}
+
 #[verifier::external_body] pub struct AtomicF64 { }
 #[verifier::external_body]
 #[verifier::reject_recursive_types(T)]
@@ -306,30 +319,28 @@ pub fn thread_threshold__player_node<'a, 'b>(player: &'a Player, p_chance: f64, 
         player.infoset < (match player.num { PlayerNum::One => player_infosets[0]@, PlayerNum::Two => player_infosets[1]@ }).len(),
         (match player.num { PlayerNum::One => player_infosets[0]@, PlayerNum::Two => player_infosets[1]@ })[player.infoset as int].strat@.len() == player.actions@.len(),
     ensures
-        // exactly one frontier entry per action, in order: the child, the unchanged chance reach, and the
-        // reach vector of ITS path -- only the acting player's entry multiplied by this action's probability
-        final(work)@.len() == old(work)@.len() + player.actions@.len(),
-        final(work)@.take(old(work)@.len() as int) == old(work)@,
-        forall|a: int| 0 <= a < player.actions@.len() ==> (#[trigger] final(work)@[old(work)@.len() + a]).0 == &player.actions@[a]
-            && final(work)@[old(work)@.len() + a].1 == p_chance
-            && pnext_ok(player.num, p_player, (match player.num { PlayerNum::One => player_infosets[0]@, PlayerNum::Two => player_infosets[1]@ })[player.infoset as int].strat@[a],
-                        final(work)@[old(work)@.len() + a].2), // @ob C06.V.thread_threshold.frontier_reach
+        // every entry added to the frontier belongs to ONE action of this node, no action twice, in order:
+        // the child, the unchanged chance reach, and the reach vector of ITS path -- only the acting
+        // player's entry multiplied by this action's probability. (Actions may be left out: whatever is
+        // not in the frontier is traversed by the pass from the root; the code as it is adds all of them.)
+        exists|idx: Seq<int>| #[trigger] sel_ok(idx, player.actions@.len() as int)
+            && added_ok(old(work)@, final(work)@, idx, player, (match player.num { PlayerNum::One => player_infosets[0]@, PlayerNum::Two => player_infosets[1]@ })[player.infoset as int].strat@, p_chance, p_player), // @ob C06.V.thread_threshold.frontier_reach
 {
 broadcast use fl; broadcast use ideal;
 proof { ax_obeys(); ax_rv_lits(); }
 let ghost w0 = work@;
 let ghost st = (match player.num { PlayerNum::One => player_infosets[0]@, PlayerNum::Two => player_infosets[1]@ })[player.infoset as int].strat@;
 let ghost acts = player.actions@;
+let ghost mut idx: Seq<int> = Seq::empty();
 
                 let probs = &player.num.ind_mut(&mut player_infosets)[player.infoset].strat;
-                for (prob, next) in it: probs.iter().zip(player.actions.iter()) 
+                proof { assert(work@.take(w0.len() as int) =~= w0); }
+for (prob, next) in it: probs.iter().zip(player.actions.iter()) 
 invariant
     probs@ == st, st.len() == acts.len(), acts == player.actions@,
     0 <= it.index@ <= acts.len(),
-    work@.len() == w0.len() + it.index@,
-    work@.take(w0.len() as int) == w0,
-    forall|a: int| 0 <= a < it.index@ ==> (#[trigger] work@[w0.len() + a]).0 == &acts[a] && work@[w0.len() + a].1 == p_chance
-        && pnext_ok(player.num, p_player, st[a], work@[w0.len() + a].2),
+    sel_ok(idx, it.index@ as int),
+    added_ok(w0, work@, idx, player, st, p_chance, p_player),
 {
 broadcast use fl; broadcast use ideal;
 proof { ax_obeys(); ax_rv_lits(); }
@@ -341,9 +352,17 @@ let ghost wb = work@;
                     work.push((next, p_chance, next_probs));
                 
 proof {
-    assert(work@.len() == wb.len() + 1);
-    assert(work@.take(w0.len() as int) =~= w0);
-    assert(forall|a: int| 0 <= a < k ==> (#[trigger] work@[w0.len() + a]) == wb[w0.len() + a]);
+    // the annotation follows what the body did: an entry was added for action k, or none
+    if work@.len() == wb.len() + 1 {
+        let i0 = idx;
+        idx = i0.push(k);
+        assert(work@.take(w0.len() as int) =~= w0);
+        assert(forall|j: int| 0 <= j < i0.len() ==> (#[trigger] work@[w0.len() + j]) == wb[w0.len() + j]);
+        assert(forall|j: int| 0 <= j < i0.len() ==> idx[j] == i0[j]);
+        assert(work@[(w0.len() + i0.len()) as int] == work@.last());
+    } else {
+        assert(work@ == wb);
+    }
 }
 }
             }
